@@ -1,6 +1,7 @@
 # C06 renet survives hostile packets: obligations + error mapping
 import re
 from sa.rules import *
+import rules.wave3 as W3
 import rules.shared as shared
 from rules.oblcommon import obl_rule
 import rules.C09 as C09
@@ -35,4 +36,5 @@ def rules(t):
                 if "Receive" in v.key or "release-from-param" in v.key or "timestamp" in v.key: r.bad(v.key.split("|", 1)[1], v.site, v.msg)
     out.append(r)
     out.append(shared.range_algebra(t, "C06.d"))
+    out.append(W3.ack_lookup_range(t, "C06.e"))
     return out
